@@ -192,6 +192,26 @@ func checkC01(c KeyCase) (bool, *Violation) {
 // ---------------------------------------------------------------- C02
 
 func isNoteOn(m []byte) bool { return len(m) == 3 && m[0]&0xf0 == 0x90 && m[2] > 0 }
+// sameMsgSet: the same messages, in whatever order.
+func sameMsgSet(a, b [][]byte) bool {
+	if len(a) != len(b) {
+		return false
+	}
+	n := map[string]int{}
+	for _, m := range a {
+		n[string(m)]++
+	}
+	for _, m := range b {
+		n[string(m)]--
+	}
+	for _, v := range n {
+		if v != 0 {
+			return false
+		}
+	}
+	return true
+}
+
 func isNoteOff(m []byte) bool {
 	return len(m) == 3 && (m[0]&0xf0 == 0x80 || (m[0]&0xf0 == 0x90 && m[2] == 0))
 }
@@ -208,9 +228,46 @@ func checkC02(c KeyCase) (bool, *Violation) {
 	}
 	pins := map[PK]pinned{}
 	nontrivial := false
+	// C02 is about what a release carries and about actions being silent - not about how octave, semitone, channel and
+	// mapping move (C04). The reference model is consulted for two things a wire cannot show (what a press registered that
+	// a collision mode kept silent, and which release is the last holder's); should the device report another state than
+	// the model of C04 computes, those two are no longer asserted and everything else rests on what was observed.
+	diverged := false
 	for i := range w.Steps {
 		ws := &w.Steps[i]
 		out := ws.Res.Out
+		if st := ws.Res.State; !diverged && (int(st.Octave) != ws.Post.Octave || int(st.Semitone) != ws.Post.Semitone || int(st.Channel) != ws.Post.Channel ||
+			st.Mapping != c.D.Mappings[ws.Post.Mapping].Name) {
+			diverged = true
+			classify("device state differs from the model of C04: only what is observed is asserted from here")
+		}
+		if diverged && ws.Step.T == "key" && ws.Model.Kind != "action-press" && ws.Model.Kind != "action-release" && ws.Model.Kind != "exit" {
+			k := PK{ws.Step.SK(), ws.Step.Code}
+			if ws.Step.Val == 1 {
+				var ons [][]byte
+				for _, m := range out {
+					if isNoteOn(m) {
+						ons = append(ons, m)
+					}
+				}
+				delete(pins, k)
+				if len(ons) == 1 {
+					pins[k] = pinned{ch: int(ons[0][0] & 0x0f), pitch: int(ons[0][1]), registered: true, stateAt: ws.Pre}
+				} else if len(ons) > 1 {
+					return true, violation("C02", "press-multiple-note-on", "", "%s emitted %s", describeStep(i, ws), fmtMsgs(out))
+				}
+			} else if ws.Step.Val == 0 {
+				p, ok := pins[k]
+				delete(pins, k)
+				for _, m := range out {
+					if ok && p.registered && isNoteOff(m) && (int(m[0]&0x0f) != p.ch || int(m[1]) != p.pitch) {
+						return true, violation("C02", "release-not-pinned", c.D.Mode,
+							"%s emitted Note Off %x, but the press of this key produced channel %d pitch %d", describeStep(i, ws), m, p.ch+1, p.pitch)
+					}
+				}
+			}
+			continue
+		}
 		switch ws.Model.Kind {
 		case "note-press":
 			p := pinned{stateAt: ws.Pre}
@@ -617,6 +674,11 @@ func checkC13(c C13Case) (bool, *Violation) {
 		default:
 			bs := &wb.Steps[origin[i]]
 			same := sameMsgs(out, bs.Res.Out)
+			if !same && ws.Model.Kind == "panic" && len(out) == len(bs.Res.Out) {
+				// a panic that both histories contain: the order within a burst is nobody's promise (what a panic sends
+				// beyond the 129 messages may come out of a map walk)
+				same = sameMsgSet(out, bs.Res.Out)
+			}
 			if panicSeen && ws.Model.Kind == "note-press" {
 				laterSamePitch = true // a press after the panic (counted as the non-trivial continuation)
 			}
@@ -665,8 +727,16 @@ func checkPanicBurst(i int, ws *walkStep, ch int) *Violation {
 			cc = true
 		case len(m) == 3 && isNoteOff(m) && int(m[0]&0x0f) == ch && m[1] < 128:
 			seenOff[m[1]] = true
+		case len(m) == 3 && isNoteOff(m):
+			// a Note Off elsewhere (a held key that sounds on another channel through its offset or an earlier channel
+			// change) starts no sound: the statement asks for the burst on the current channel "and nothing that could start a
+			// sound", not for nothing else
+			classify("panic also sends Note Offs on other channels")
+		case len(m) == 3 && m[0]&0xf0 == 0xB0 && (m[1] == 123 || m[1] == 120):
+			// All Notes Off / All Sound Off, here or on another channel: silences, starts nothing
+			classify("panic also sends further All Notes Off / All Sound Off messages")
 		default:
-			return violation("C13", "burst-content", "", "panic on channel %d emitted %x, which is neither All Notes Off nor a Note Off on that channel (%s)",
+			return violation("C13", "burst-content", "", "panic on channel %d emitted %x, which is neither All Notes Off / All Sound Off nor a Note Off: it is not part of the burst and could start a sound or change the receiver (%s)",
 				ch+1, m, describeStep(i, ws))
 		}
 	}
